@@ -64,7 +64,46 @@ META = {
     "place) and the retry runs on another copy; all interleavings at lock/client/Variable granularity.  Several "
     "file sinks alive at once with destinations differing only in suffix / case / directory / a prefix / a hidden "
     "twin, all 20 interleavings of their writes and finalises: each sink must behave as the single-sink model "
-    "says it does alone, each destination holds exactly its own bytes and nothing else is left behind.",
+    "says it does alone, each destination holds exactly its own bytes and nothing else is left behind.  "
+    "Growth round 2 (Model/C18Up.lean, Props/C18Up.lean, Props/C18C06.lean): (1) the in-process writer WITH THE BODIES of "
+    "its parts against the completion rules of the multipart API (model Up: parts kept by number, later upload wins; "
+    "unknown part / non-ascending list / non-last part below the minimal size / empty list rejected; object = listed "
+    "bodies in order) - s3_writer_contract, s3_write_then_finalise: any call sequence, exactly one upload initiated by "
+    "whichever call comes first, everything under its id, object = concatenation; compared on every write order of 1..3 "
+    "parts x sizes {0..3} x eight kinds of part list x minimal sizes, random overwrites, bytes / bytearray / memoryview "
+    "bodies, plus an argument oracle on every storage call of every stage (Bucket, Key, create keywords, Body, Parts, "
+    "returned records).  (2) MultiPartUpload.upload end to end: mpu_upload_to_s3 composes C06.main with the Up model "
+    "through the upload() glue (uploadWriter: spill_sz=0 -> no writer, mpu_upload_without_spill): for every merge tree, "
+    "callbacks and spill size the run succeeds, ONE upload is initiated, part numbers lie in 1..10000, the service's 5 MiB "
+    "rule is met and the assembled object is header ++ stream ++ footer; observed on real dask bags with 5 MiB parts "
+    "against the fake service with the real limits, and the arguments upload() hands to mpu_write are compared / judged "
+    "for every spill size x keyword set x client.  (3) writer(kw, client=) glue (writerPrep, all 4 combinations), an "
+    "object resumed with uploadId= (resumed_never_initiates), _ensure_init(final_write=True) "
+    "(ensure_final_never_initiates; every position in sequences of up to 3 (4) operations).  (4) cancel('all') next "
+    "to active uploads of LONGER keys (model SeqK; cancel_all_ignores_other_keys for the repaired list_active, "
+    "cancel_all_foreign_prefix_cex for the code as found = known finding K25, key "
+    "seq:cancel-all-fails-next-to-upload-of-longer-key, fix on branch fix2-C18; the harness probes once which of the two "
+    "proven variants the tree has, the oracle is independent of that).  (5) swallowed Variable.get timeouts "
+    "(_safe_get): Dist.Cfg.spurGet1 - dist_once and all cluster theorems now quantify over timeouts of every thread's "
+    "first read; the second read breaks the protocol (dist_spurious_get2_cex), compared with the real code under "
+    "injected timeouts, correspondence only.  (6) several objects at once on one cluster (keys k / k.ovr / one letter "
+    "apart): real _build_name names feed the DistN model (one writer copy per worker and object), oracle per object; "
+    "dist_objects_sharing_names_cex; names of different objects must differ (xproc).  (7) file sinks over time: "
+    "arbitrary operation sequences of 1..3 sink objects (re-created sinks for the same destination, shared parts "
+    "directories, str / Path / trailing-slash spellings, keep_parts positional) against FS.run; rounds on one sink "
+    "(sink_round_overwrites_destination).  WHAT IS COMPARED in the protocol stages (false-alarm discipline): the "
+    "correspondence runs the real code with context switches at operations on EXTERNAL collaborators only (lock "
+    "acquire / release, Variable get / set / delete, storage-client calls) and compares, per scheduler step, the "
+    "external operations performed, the client calls with their ids, final ids / variable / lock and the outcomes with "
+    "the model run in the same macro steps (driver `c18 x <switch set> ...`); how many internal steps (reads / writes "
+    "of uploadId, look-ups in the module's private state, get_client) the code takes in between is not compared.  Runs "
+    "scheduled at internal steps as well (the finest granularity, incl. the lazy creation of the process-wide lock) "
+    "are judged by the property oracle on every run; their step-by-step agreement with the model's internal steps, "
+    "the text of dask tokens, the names of temporary part files and the accessor list of the protocol are recorded "
+    "in the evidence notes (internal-step tie / detail tie) and never reported as a violation.  Private names "
+    "(module-level dict and Lock factory of _s3, _ensure_init, _build_name, the open / Path names of _mpu_fs, "
+    "mpu_write as seen by upload) are looked up defensively; a stream whose private entry point is gone is skipped "
+    "with a note.",
     "note": "Trusted: Lean kernel + {propext, Classical.choice, Quot.sound}; the fakes at the client boundary "
     "(S3 client, distributed.get_client/Variable/Lock, the module dict _s3._state and the Lock constructor "
     "_s3.Lock, the open/Path names seen by _mpu_fs under the short-write fault model, an observable uploadId "
@@ -75,7 +114,8 @@ META = {
     "(cleanup_client, its last action): a first write that starts after, or races with, a completed finalise can "
     "fail or initiate a second upload (dist_after_delete_cex; observed on the real code) - excluded by mpu_write, "
     "which feeds finalise with the results of all writes; such runs are compared with the model and judged only up "
-    "to the deletion.  _ensure_init(final_write=True) has no caller and is not modelled.  Exhaustive enumeration "
+    "to the deletion.  _ensure_init(final_write=True) has no caller; it is modelled sequentially (in-process, Seq op "
+    "ensureFinal), not inside the concurrent transition systems.  Exhaustive enumeration "
     "covers the stated thread counts only; larger configurations are covered by the theorems, not by the "
     "correspondence.  Growth round: file-system model of MPUFileSink (FS with parts directories keyed by (root, full "
     "destination name); sinks_never_interfere, sink_contract_among_others, parts_dir_injective_on_destinations, "
@@ -84,10 +124,16 @@ META = {
     "KNOWN-FINDING on every run from one deterministic case; all its interleavings are compared with the model), the link "
     "C18 o C06 (Props/C18C06.lean: mpu_write_to_file_sink - C06.run's writer calls performed on the C18 sink leave "
     "header ++ stream ++ footer and no parts), s3_parse_url / url / dask tokens.  INVENTORY of anchored code not "
-    "mirrored by the Lean model: MultiPartUpload.s3_client (botocore session/credentials), read(), upload() and the "
-    "mpu_write wiring (C06), list_active's pagination; DelayedS3Writer._ensure_init(final_write=True) (no caller), "
-    "_build_name's tokenize (names are abstract per worker; agreement is checked across real interpreter processes), "
-    "_safe_get's timeout (a spurious None), _shared's lazy Variable creation race (benign: same name); "
+    "mirrored by the Lean model: MultiPartUpload.s3_client (botocore session/credentials, the @cached client), read(), "
+    "list_active's pagination (more than 1000 uploads); the dask graph mpu_write builds around the writer (C06 models "
+    "its evaluation; the composition theorem is about the call sequence, run in-process); _ensure_init(final_write=True) "
+    "inside a race and on a cluster (sequential in-process only); _build_name's tokenize (names are abstract numbers; "
+    "agreement across interpreter processes and difference across objects are checked on the real code); a swallowed "
+    "timeout of the SECOND Variable.get (outside the theorems: _cex) and exceptions other than timeouts in _safe_get; "
+    "two objects at once in ONE process (they share the process-wide lock; oracle-free: not modelled); no positive "
+    "theorem for several objects on a cluster (only the _cex and the correspondence); the service's rules in Up are a "
+    "specification of S3, validated against nothing but the fake; _shared's lazy Variable creation race (benign: same "
+    "name); "
     "MPUFileSink._ensure_dst_file's mkdir race (FileExistsError swallowed), the assert nb == len(data) in __call__ "
     "(short writes are injected on the real code only), rename across file systems, a destination that is itself "
     "named like another sink's parts directory; bytes are letters (no binary content).",
@@ -97,6 +143,38 @@ META = {
 }
 
 Q = chr(34) * 2
+
+
+class Soft:
+    """Facts about today's implementation that are NOT part of the property (the text of dask tokens, the names of
+    the temporary part files, the list of protocol accessors): compared with the model through the driver, the
+    outcome goes to the evidence notes; what the property needs of them is judged behaviourally by oracles."""
+
+    def __init__(self):
+        self.items: List[Any] = []
+
+    def add(self, line: str, fn, what: str):
+        self.items.append((line, guarded(fn), what))
+
+    def report(self, R: Run):
+        if not self.items or R.proof_break:
+            return
+        try:
+            outs = run_driver("C18", [ln for ln, _, _ in self.items])
+        except Exception as e:  # pylint: disable=broad-except
+            R.notes.append(f"implementation-detail tie not evaluated: {e}")
+            return
+        diff = [(ln, r, m, w) for (ln, r, w), m in zip(self.items, outs) if r != m]
+        R.count("detail-tie:agree", len(self.items) - len(diff))
+        R.count("detail-tie:differ", len(diff))
+        if diff:
+            kinds = sorted({w for _, _, _, w in diff})
+            R.notes.append(f"implementation details that differ from the model's description ({', '.join(kinds)}; "
+                           f"{len(diff)} of {len(self.items)}; not part of the property): {diff[0][0][:160]} | real "
+                           f"{diff[0][1][:200]} | model {diff[0][2][:200]}")
+
+
+SOFT = Soft()
 
 
 # ------------------------------------------------------------------ schedules
@@ -126,25 +204,46 @@ def named_line(kinds, workers, fine, opts) -> str:
 
 
 def check_run(R: Run, variant: str, kinds, workers, gate: bool, obs: Dict[str, Any], tag: str,
-              oracle: bool = True):
-    """register the correspondence case of one real run and evaluate the property on it"""
-    line = sched_line(variant, kinds, workers, obs["fine"], obs.get("extra", ""))
+              oracle: bool = True, xset=None, side: Optional[list] = None):
+    """Register one real run and evaluate the property on it.
+
+    `xset` given: the run was scheduled with context switches at those EXTERNAL operations only (storage client,
+    Variable, Lock); it is a CORRESPONDENCE case - the model runs the same scheduler steps (`c18 x <set> ...`) and
+    must show the same external operations per step, the same client calls with their ids, final ids / variable /
+    lock and outcomes.  How many internal steps (reads / writes of uploadId, private module state, get_client) the
+    real code takes between two external operations is not compared.
+    `xset` None: a run scheduled at internal steps as well - judged by the property oracle; its step-by-step
+    agreement with the model's internal steps goes to `side` (reported in the evidence notes, never a violation)."""
+    sch = obs["macro"] if xset is not None else obs["fine"]
+    line = sched_line(variant, kinds, workers, sch, obs.get("extra", ""))
     if isinstance(gate, dict) and gate.get("xnames") and variant == "dist":
-        line = named_line(kinds, workers, obs["fine"], gate)
+        line = named_line(kinds, workers, sch, gate)
     outs = obs["outcomes"]
+    if obs.get("objects"):
+        ob = obs["objects"]
+        line = f"c18 distobj {list_s(kinds)} {list_s(ob['copies'])} {list_s(ob['names'][0])} {list_s(ob['names'][1])} {list_s(sch)}"
     sig = f"{variant}|{tag}|" + ("raised" if any(o not in ("ok",) for o in outs) else "ok")
-    R.corr(line, lambda: obs["text"], sig=sig)
+    if xset is not None:
+        R.corr(f"c18 x {list_s(sorted(xset))} {line[4:]}", lambda: obs["xtext"], sig=sig)
+    elif side is not None:
+        side.append((line, obs["text"]))
     case = {"variant": variant, "kinds": kinds, "workers": workers, "gate": gate, "schedule": obs["fine"]}
+    if obs.get("objects"):
+        objects_oracle(R, case, kinds, gate, obs)
+        return
     if obs.get("pre_error"):
         R.oracle(False, f"{variant}:earlier-attempt-raises", case, f"a phase of the history raised {obs['pre_error']}",
                  trivial=True)
+    if oracle is None:
+        return  # correspondence only: the property is provably out of reach there (a `_cex` theorem says why)
     if not oracle:
         pre_delete_oracle(R, variant, case, obs)
         return
     R.oracle(not obs["deadlock"] and obs["lock"] is None and all(o != "running" for o in outs),
              f"{variant}:deadlock-or-lock-left-held", case,
              f"threads {outs}, lock holder {obs['lock']} after a complete schedule", trivial=True)
-    faulty = {i for i, k in enumerate(kinds) if "!" in k}  # threads whose own storage call was made to fail
+    # threads whose own storage call was made to fail ("!g" / "!G" are swallowed Variable.get timeouts, not failures)
+    faulty = {i for i, k in enumerate(kinds) if any(c in "".join(k.split("!")[1:]) for c in "cu")}
     odd = sorted({o for i, o in enumerate(outs)
                   if o not in ("ok", "running", "AssertionError") and not (i in faulty and o == "TransientError")})
     R.oracle(not odd, f"{variant}:write-raises-{'-'.join(odd) or 'other-exception'}", case,
@@ -173,6 +272,32 @@ def check_run(R: Run, variant: str, kinds, workers, gate: bool, obs: Dict[str, A
             ok_parts = ok_parts and obs["results"][i] == want
     R.oracle(ok_parts, f"{variant}:part-not-uploaded-exactly-once", case,
              f"uploads {obs['uploads']} results {obs['results']}", trivial=True)
+    bad = obs.get("bad_args") or []
+    R.oracle(not bad, f"{variant}:storage-call-with-wrong-arguments", case, f"{bad}", trivial=True)
+
+
+def objects_oracle(R: Run, case, kinds, gate, obs):
+    """several objects (keys) written at once on one cluster: each object gets exactly one upload of its own, all its
+    parts go under that upload's id and key, no write fails - whatever the threads of the other objects do"""
+    ob = obs["objects"]
+    outs = obs["outcomes"]
+    R.oracle(not obs["deadlock"] and all(o == "ok" for o in outs), "dist:write-fails-next-to-another-object", case,
+             f"thread outcomes {outs} ({obs['text'][-200:]})")
+    created: Dict[str, List[str]] = {k: [] for k in ob["keys"]}
+    ids = iter(obs["ids"])
+    for n, a in ob["args"]:
+        if n == "create":
+            created.setdefault(a["Key"], []).append(next(ids, "?"))
+    used = {k: sorted({obs_id for (n, a), obs_id in zip([x for x in ob["args"] if x[0] in ("upload", "complete")],
+                                                        obs["used_ids"]) if a["Key"] == k}) for k in ob["keys"]}
+    want_parts = {k: sorted(int(kd[1:]) for kd, o in zip(kinds, gate["objects"]) if ob["keys"][o] == k and kd != "f")
+                  for k in ob["keys"]}
+    got_parts = {k: sorted(a["PartNumber"] for n, a in ob["args"] if n == "upload" and a["Key"] == k) for k in ob["keys"]}
+    ok = all(len(created[k]) == 1 and used[k] in ([], created[k]) for k in ob["keys"]) and got_parts == want_parts \
+        and set(created) == set(ob["keys"])
+    R.oracle(ok, "dist:objects-share-an-upload", case,
+             f"uploads created per key {created}, ids used per key {used}, parts uploaded per key {got_parts} "
+             f"(expected {want_parts})")
 
 
 def pre_delete_oracle(R: Run, variant: str, case, obs):
@@ -197,6 +322,30 @@ def pre_delete_oracle(R: Run, variant: str, case, obs):
              f"calls before the deletion: {calls_pre}")
     R.oracle(len(set(ids_pre)) <= 1, f"{variant}:call-under-other-upload-id-before-variable-deleted", case,
              f"calls before the deletion: {calls_pre}")
+
+
+def side_report(R: Run, side):
+    """Runs scheduled at INTERNAL steps (reads / writes of uploadId, private module state, get_client): does the model
+    take the same internal steps?  That is a statement about today's implementation, not about the property - a
+    refactoring may add, drop or reorder internal steps - so a difference is recorded in the evidence and never
+    reported as a violation; the property was judged on every one of these runs by the oracle."""
+    if not side or R.proof_break:
+        return
+    try:
+        outs = run_driver("C18", [ln for ln, _ in side])
+    except Exception as e:  # pylint: disable=broad-except
+        R.notes.append(f"internal-step tie not evaluated: {e}")
+        return
+    diff = [(ln, r, m) for (ln, r), m in zip(side, outs) if r != m]
+    R.count("internal-step-tie:agree", len(side) - len(diff))
+    R.count("internal-step-tie:differ", len(diff))
+    if diff:
+        R.notes.append(f"internal-step tie: {len(diff)} of {len(side)} runs scheduled at internal steps differ from the "
+                       f"model's internal steps (implementation detail, not a violation); first: {diff[0][0][:200]} | real "
+                       f"{diff[0][1][:300]} | model {diff[0][2][:300]}")
+    else:
+        R.notes.append(f"internal-step tie: all {len(side)} runs scheduled at internal steps take exactly the model's "
+                       "internal steps")
 
 
 def schedules(R: Run, xnames=None):
@@ -236,32 +385,46 @@ def _schedules(R: Run, S, procs, pool, xnames=None):
         if any(R.real[i] != o for i, o in zip(idx, outs)):
             hot["on"] = True
 
+    side: List[Any] = []  # (model line, real text) of runs scheduled at internal steps: soft tie, see `side_report`
+    STATE_OPS = frozenset({"ssd", "sset", "sitem", "sin"})
+
     def exhaustive(variant, kinds, workers, coarse, tag, gate=False, oracle=True):
         # wall-clock valve per configuration, far above what the unchanged protocol needs; once the protocol is
         # known to have changed (failing input or model mismatch), later configurations are only sampled
         budget = 0.3 if failing() else 1.0 if hot["on"] else R.pick(30, 240)
+        # 1. every interleaving at the EXTERNAL operations (or the given subset of them): correspondence + oracle
+        xs = coarse if (coarse is not None and coarse <= S.EXT) else S.EXT
         n0 = len(R.lines)
-        obs, truncated = S.enumerate_all(kinds, workers, coarse, procs=procs, gate_fin=gate, budget_s=budget, pool=pool)
+        obs, truncated = S.enumerate_all(kinds, workers, xs, procs=procs, gate_fin=gate, budget_s=budget, pool=pool)
         if truncated:
             R.notes.append(f"enumeration truncated for {variant} {kinds} {workers} ({tag}): more interleavings "
                            "than the unchanged protocol has")
         for o in obs:
-            check_run(R, variant, kinds, workers, gate, o, tag, oracle)
+            check_run(R, variant, kinds, workers, gate, o, tag, oracle, xset=xs)
         R.count(f"schedules:{variant}:{tag}:{'+'.join(kinds)}:{workers}", len(obs))
         early_mismatch(n0)
+        # 2. a finer enumeration was asked for (context switches at reads / writes of uploadId, private state):
+        # oracle on every run; agreement with the model's internal steps is recorded, not enforced
+        if coarse is None or (coarse - S.EXT - STATE_OPS):
+            obs, truncated = S.enumerate_all(kinds, workers, coarse, procs=procs, gate_fin=gate, budget_s=budget, pool=pool)
+            if truncated:
+                R.notes.append(f"fine enumeration truncated for {variant} {kinds} {workers} ({tag})")
+            for o in obs:
+                check_run(R, variant, kinds, workers, gate, o, tag + "|internal-steps", oracle, side=side)
+            R.count(f"schedules-internal:{variant}:{tag}:{'+'.join(kinds)}:{workers}", len(obs))
 
     def rand(variant, kinds, workers, n, gate=False, oracle=True):
         if failing() or hot["on"]:
             n = min(n, 60)
         seeds = [R.rng.randrange(1 << 60) for _ in range(n)]
         for o in S.random_runs(kinds, workers, seeds, procs=procs, gate_fin=gate, pool=pool):
-            check_run(R, variant, kinds, workers, gate, o, "random-fine", oracle)
+            check_run(R, variant, kinds, workers, gate, o, "random-fine", oracle, side=side)
 
     # ---- in-process variant: every interleaving of two threads at the finest granularity
     # (the process-wide lock does not exist at the start: its lazy creation is part of the race)
     exhaustive("local", ["w1", "w2"], None, NOGC if R.quick else None, "nogc" if R.quick else "fine")
     # a write racing with a finalise
-    exhaustive("local", ["w1", "f"], None, NOGC if R.quick else None, "nogc" if R.quick else "fine")
+    exhaustive("local", ["w1", "f"], None, CW if R.quick else NOGC, "cw" if R.quick else "nogc")
     exhaustive("local", ["w1", "w2", "f"], None, CW if R.quick else NOGC, "gated", gate=True)  # two writes, then the finalise
     exhaustive("local", ["w3", "w1", "w2"], None, C2 if R.quick else frozenset(C2 | {"ssd", "sset"}), "coarse")
     exhaustive("local", ["w1", "w2", "f"], None, C2 if R.quick else CW, "coarse")  # racing finalise
@@ -274,7 +437,9 @@ def _schedules(R: Run, S, procs, pool, xnames=None):
     exhaustive("dist", ["w1", "f"], [0, 1], S.COARSE if R.quick else NOGC, "racing-fin", oracle=False)
     exhaustive("dist", ["w1", "f"], [0, 0], S.COARSE if R.quick else CW, "racing-fin", oracle=False)
     if not R.quick:
-        for workers in ([0, 1, 1], [0, 0, 0], [0, 1, 2]):
+        for wi, workers in enumerate(([0, 1, 1], [0, 0, 0], [0, 1, 2])):
+            if (wi + R.seed) % 3 == 2:
+                continue  # two of the three placements per run, rotating with the seed
             exhaustive("dist", ["w1", "w2", "w3"], workers, C2, "coarse3")
     # ---- histories: state carried across attempts in one process / on one scheduler.  Earlier phases run
     # sequentially, then every interleaving of the attempt is explored; oracle = the attempt initiates exactly
@@ -290,18 +455,22 @@ def _schedules(R: Run, S, procs, pool, xnames=None):
         "finalised-attempt": [att(True, "finalise", [0, 1])],
         "crashed-twice-then-asked": [att(True, "crash", [0, 0]), att(True, "crash", [1, 0]), {"op": "ask", "client": False}],
     }
-    for nm, pre in hist_dist.items():
+    # (quick tier: the three-thread variant of every other history, rotating with the seed)
+    rot = lambda i, m=2: (not R.quick) or (i + R.seed) % m == 0  # noqa: E731
+    for hi, (nm, pre) in enumerate(hist_dist.items()):
         exhaustive("dist", ["w1", "w2"], [0, 1], HS, f"hist:{nm}", gate={"pre": pre})
-        exhaustive("dist", ["w1", "w2", "f"], [0, 0, 1], S.COARSE, f"hist:{nm}", gate={"pre": pre, "gate": True})
+        if rot(hi):
+            exhaustive("dist", ["w1", "w2", "f"], [0, 0, 1], S.COARSE, f"hist:{nm}", gate={"pre": pre, "gate": True})
     hist_local = {
         "cluster-attempt-first": [att(True, "crash", [0, 1])],
         "asked-while-client-existed": [{"op": "ask", "client": True}],
         "crashed-in-process-attempt": [att(False, "crash")],
         "finalised-in-process-attempt": [att(False, "finalise"), {"op": "ask", "client": True}],
     }
-    for nm, pre in hist_local.items():
+    for hi, (nm, pre) in enumerate(hist_local.items()):
         exhaustive("local", ["w1", "w2"], None, HS, f"hist:{nm}", gate={"pre": pre})
-        exhaustive("local", ["w1", "w2", "f"], None, S.COARSE, f"hist:{nm}", gate={"pre": pre, "gate": True})
+        if rot(hi + 1):
+            exhaustive("local", ["w1", "w2", "f"], None, S.COARSE, f"hist:{nm}", gate={"pre": pre, "gate": True})
     # ---- transient storage errors: a thread's create / upload_part / complete call raises once; the documented
     # retry (the same step on another copy) runs when the failed attempt has ended
     FS = S.COARSE if R.quick else CW
@@ -314,11 +483,37 @@ def _schedules(R: Run, S, procs, pool, xnames=None):
         exhaustive("dist", ["w1!c", "w2"], wk, HS, "fault:create")
     exhaustive("dist", ["w1!u", "w2", "w1"], [0, 1, 2], FS, "fault:upload+retry", gate={"after": {"2": [0]}})
     exhaustive("dist", ["w1!u", "w2", "w1"], [0, 1, 0], FS, "fault:upload+retry", gate={"after": {"2": [0]}})
-    for wk in ([0, 1, 1, 2], [0, 1, 1, 1], [0, 0, 0, 1]):
+    for wi, wk in enumerate(([0, 1, 1, 2], [0, 1, 1, 1], [0, 0, 0, 1])):
+        if not rot(wi, 3):
+            continue
         exhaustive("dist", ["w1", "w2", "f!u", "f"], wk, S.COARSE, "fault:complete+retry",
                    gate={"gate": True, "after": {"3": [2]}})
     exhaustive("dist", ["w1!c", "w2", "f!u", "f"], [0, 1, 2, 3], S.COARSE, "fault:create+complete+retry",
                gate={"gate": True, "after": {"3": [2]}})
+    # ---- swallowed `Variable.get` timeouts (the real `_safe_get` turns every exception into None): a thread's FIRST,
+    # unlocked read times out although the variable may be set - covered by dist_once (Cfg.spurGet1), full oracle;
+    # its SECOND read, under the lock - the protocol provably breaks (dist_spurious_get2_cex): correspondence only
+    for wi, wk in enumerate(([0, 1], [0, 0])):
+        exhaustive("dist", ["w1", "w2!g"], wk, HS, "spur:get1")
+        if rot(wi):
+            exhaustive("dist", ["w1!g", "w2!g"], wk, S.COARSE, "spur:get1")
+    exhaustive("dist", ["w1!g", "w2!g", "f"], [0, 1, 1], S.COARSE, "spur:get1", gate=True)
+    exhaustive("dist", ["w1!c!g", "w2!g"], [0, 1], S.COARSE, "spur:get1+fault:create")
+    if not R.quick:
+        exhaustive("dist", ["w1!g", "w2", "w3!g"], [0, 1, 1], frozenset({"acq", "create", "vget"}), "spur:get1")
+    exhaustive("dist", ["w1", "w2!G"], [0, 1], HS, "spur:get2", oracle=None)
+    exhaustive("dist", ["w1!G", "w2!gG"], [0, 0], S.COARSE, "spur:get2", oracle=None)
+    # ---- several objects at once on one cluster (keys differing minimally: `k` / `k.ovr` / one letter): every object has
+    # its own Variable and Lock (model DistN: one writer copy per worker and object, names per object)
+    # (threads of different objects are independent: the interleavings multiply, so context switches are coarse)
+    from odc.geo.cog import _s3 as _s3mod
+
+    have_names = hasattr(_s3mod.DelayedS3Writer, "_build_name")  # private helper the name numbering reads
+    if not have_names:
+        R.notes.append("DelayedS3Writer._build_name is not there: the several-objects stream is skipped")
+    else:
+        exhaustive("dist", ["w1", "w1"], [0, 0], C2 if R.quick else S.COARSE, "objects:2", gate={"objects": [0, 1]})
+        exhaustive("dist", ["w1", "w1"], [0, 1], C2 if R.quick else S.COARSE, "objects:2", gate={"objects": [0, 1]})
     # ---- names computed by the real code in separate interpreter processes (distinct hash salts) feed the
     # shared Variable / Lock store: worker w uses the names child process w asked for
     if xnames:
@@ -333,12 +528,14 @@ def _schedules(R: Run, S, procs, pool, xnames=None):
     # copy) taken after the first write and used for later writes and the finalise
     exhaustive("dist", ["w1", "w2"], [0, 1], HS, "copies:deepcopy", gate={"copies": "deepcopy"})
     exhaustive("dist", ["w1", "w2", "f"], [0, 1, 1], S.COARSE, "copies:deepcopy", gate={"copies": "deepcopy", "gate": True})
-    for late in (["pickle", "deepcopy", "copy"], ["copy", "pickle", "deepcopy"], ["deepcopy", "copy", "pickle"]):
+    for li, late in enumerate((["pickle", "deepcopy", "copy"], ["copy", "pickle", "deepcopy"], ["deepcopy", "copy", "pickle"])):
+        if not rot(li, 3):
+            continue
         o = {"chain": True, "late_clone": [None] + late}
         exhaustive("local", ["w1", "w2", "w3", "f"], None, S.COARSE, "copies:late", gate=o)
         exhaustive("dist", ["w1", "w2", "w3", "f"], [0, 0, 0, 0], S.COARSE, "copies:late", gate=o)
     # ---- random fine-grained schedules of three / four threads, with stutter steps
-    n = R.pick(400, 6000)
+    n = R.pick(400, 4000)
     rand("local", ["w1", "w2", "w3"], None, n)
     rand("local", ["w2", "f", "w1"], None, n)
     rand("local", ["w1", "w2", "w3", "f"], None, n // 2, gate=True)
@@ -346,22 +543,75 @@ def _schedules(R: Run, S, procs, pool, xnames=None):
     rand("dist", ["w1", "w2", "w3"], [0, 0, 0], n // 2)
     rand("dist", ["w1", "w2", "w3", "f"], [0, 1, 0, 2], n, gate=True)
     rand("dist", ["w1", "f", "w2"], [0, 1, 1], n // 2, oracle=False)
+    rand("dist", ["w1!g", "w2", "w3!g"], [0, 1, 1], n // 2)
+    if have_names:
+        rand("dist", ["w1", "w2", "w1", "w2"], [0, 1, 1, 0], n // 2, gate={"objects": [0, 0, 1, 1]})
+        rand("dist", ["w1", "w1", "w1"], [0, 0, 1], n // 4, gate={"objects": [0, 1, 2]})
+        rand("dist", ["w1", "w2", "f", "w1"], [0, 1, 0, 1], n // 4, gate={"objects": [0, 0, 0, 1], "gate": True})
+    side_report(R, side)
+    rand("dist", ["w1!gG", "w2!G", "w3"], [0, 1, 1], n // 4, oracle=None)
 
 
 # ------------------------------------------------------------------ one upload object over time (cancel)
-def seq_case(R: Run, ops: List[str]):
+K25_KEY = "seq:cancel-all-fails-next-to-upload-of-longer-key"
+SEQK = {"filtered": None}  # which `list_active` the tree under test has (probed once per run, see `seqk_probe`)
+
+
+def seqk_probe() -> bool:
+    """does `list_active()` keep only the uploads of its own key?  One deterministic run of the real code decides
+    which of the two PROVEN models (`SeqK.step false` = as found, `true` = repaired) the correspondence uses; the
+    property itself is judged by the oracle `K25_KEY`, which does not depend on the answer."""
+    from . import c18_sched as S
+
+    if SEQK["filtered"] is None:
+        st = S.run_seq(["X", "w", "ca"])["steps"][-1]
+        SEQK["filtered"] = not any(c.startswith("abort=") and c != "abort=id2" for c in st["calls"])
+    return SEQK["filtered"]
+
+
+def seq_case(R: Run, ops: List[str], resumed: bool = False, k25: bool = False):
     from . import c18_sched as S
 
     out: Dict[str, Any] = {}
 
     def real():
-        out.update(S.run_seq(ops))
+        out.update(S.run_seq(ops, resumed))
         return out["text"]
 
-    R.corr(f"c18 seq {list_s(ops)}", real, sig="seq|" + "".join(sorted({o[0] if o[0] != "c" else "c" for o in ops})))
+    multi = any(o in ("X", "Y") for o in ops)
+    if multi:
+        line = f"c18 seqk {'T' if seqk_probe() else 'F'} {list_s(ops)}"
+    else:
+        line = f"c18 seq {list_s(ops)}" + (" R" if resumed else "")
+    R.corr(line, real, sig=("seqk|" if multi else "seq-resumed|" if resumed else "seq|")
+           + "".join(sorted({o[0] if o[0] != "c" else "c" for o in ops})))
     if not out:
         return
-    case = {"ops": ops}
+    case = {"ops": ops, "resumed": resumed}
+    bad = S.bad_call_args([(n, a) for n, a in out["args"] if a.get("Key") != "some/key.tif" + S.OTHER_KEY_SUFFIX
+                         and not (n == "abort" and multi)])
+    R.oracle(not bad, "seq:storage-call-with-wrong-arguments", case, f"{bad}", trivial=True)
+    if resumed:
+        creates = [c for st in out["steps"] for c in st["calls"] if c.startswith("create=")]
+        if all(o in ("w", "e") for o in ops):
+            R.oracle(not creates and all(st["res"] == "ok" for st in out["steps"]), "seq:resumed-upload-initiates-again",
+                     case, f"object built with uploadId='id1' (active): {out['text']}")
+    for i, st in enumerate(out["steps"]):
+        if st["op"] == "e":
+            R.oracle(st["res"] == "ok" and not st["calls"] and st["after"] == st["before"],
+                     "seq:ensure-init-final-write-touches-storage", {**case, "at": i},
+                     f"_ensure_init(final_write=True) after {ops[:i]}: result {st['res']}, calls {st['calls']}, uploadId "
+                     f"{st['before']!r} -> {st['after']!r}")
+        if multi and st["op"] in ("ca", "cA") and k25:
+            # the finding K25 on ONE deterministic case per run: cancel('all') next to an active upload of a longer key
+            pre_foreign = out["steps"][i - 1]["foreign"] if i else []
+            R.oracle(st["res"] == "ok" and st["after"] == "" and not st["active"] and st["foreign"] == pre_foreign
+                     and not any(c == f"abort={u}" for c in st["calls"] for u in pre_foreign), K25_KEY, {**case, "at": i},
+                     f"K25: key some/key.tif, active upload(s) {pre_foreign} of some/key.tif{S.OTHER_KEY_SUFFIX}: cancel('all') -> "
+                     f"{st['res']}, storage calls {st['calls']}, uploadId afterwards {st['after']!r}")
+    if multi and not seqk_probe():
+        return  # as found: what follows a failed cancel('all') is judged by K25 only; the correspondence still compares
+    case = {"ops": ops, "resumed": resumed}
     last_all = None  # number of uploads created when the last successful cancel("all") returned
     ncreated = 0
     for i, st in enumerate(out["steps"]):
@@ -402,6 +652,27 @@ def seq_cases(R: Run):
             if n == L and "w" not in ops and "f" not in ops:
                 continue
             seq_case(R, list(ops))
+    # `_ensure_init(final_write=True)` ("e") anywhere in sequences of up to 3 (4) operations - a private entry point
+    # without a caller: driven while it exists
+    has_e = S.has_ensure_init()
+    if not has_e:
+        R.notes.append("DelayedS3Writer._ensure_init(final_write=...) is not there: that stream is skipped")
+    EO = ["w", "f", "ca", "cc", "c1", "e"] if has_e else []
+    for n in range(1, R.pick(3, 4) + 1):
+        for ops in itertools.product(EO, repeat=n):
+            if "e" in ops:
+                seq_case(R, list(ops))
+    # an object that resumes an active upload somebody else initiated (uploadId= argument)
+    for n in range(1, R.pick(3, 4) + 1):
+        for ops in itertools.product(["w", "f", "e", "cc", "ca", "c1"] if has_e else ["w", "f", "cc", "ca", "c1"], repeat=n):
+            seq_case(R, list(ops), resumed=True)
+    # the service also holds uploads of ANOTHER key that begins with this object's key ("X" starts / "Y" completes one)
+    seq_case(R, ["X", "w", "ca", "w"], k25=True)
+    KO = ["w", "f", "ca", "cc", "c1", "X", "Y"]
+    for n in range(2, R.pick(4, 5) + 1):
+        for ops in itertools.product(KO, repeat=n):
+            if "X" in ops and ("ca" in ops or "c1" in ops or n < 4):
+                seq_case(R, list(ops))
     # longer: cancel at every position of two full uploads of the same object
     base = ["w", "w", "f", "w", "w", "f"]
     for c in S.SEQ_OPS[2:]:
@@ -409,6 +680,233 @@ def seq_cases(R: Run):
             seq_case(R, base[:pos] + [c] + base[pos:])
             for pos2 in range(pos, len(base) + 1):
                 seq_case(R, base[:pos] + [c] + base[pos:pos2] + ["ca"] + base[pos2:])
+
+
+# ------------------------------------------------------------------ the in-process S3 writer with bodies (model Up)
+def up_case(R: Run, min_size: int, writes, plist, writes2, data_kind: str, tag: str):
+    from . import c18_sched as S
+
+    out: Dict[str, Any] = {}
+
+    def real():
+        out.update(S.run_up(min_size, writes, plist, writes2, data_kind))
+        return out["text"]
+
+    line = (f"c18 up {min_size} {list_s([f'{p}:{d}' for p, d in writes])} {list_s(plist)} "
+            f"{list_s([f'{p}:{d}' for p, d in writes2])}")
+    R.corr(line, real, sig=f"up|{tag}|{data_kind}")
+    if not out:
+        return
+    case = {"min_size": min_size, "writes": writes, "parts": plist, "writes2": writes2, "data": data_kind}
+    last = dict(writes)
+    # what the multipart API answers, computed here from its rules (independent of the Lean model)
+    if not plist:
+        want = "ERR:AssertionError"
+    elif any(a >= b for a, b in zip(plist, plist[1:])):
+        want = "ERR:InvalidPartOrder"
+    elif any(p not in last for p in plist):
+        want = "ERR:InvalidPart"
+    elif any(len(last[p]) < min_size for p in plist[:-1]):
+        want = "ERR:EntityTooSmall"
+    else:
+        want = "ok"
+    res = out["res"]
+    R.oracle(res[0] == "w:ok", "up:first-writes-fail", case, f"{out['text']}")
+    if len(res) > 1:
+        R.oracle(res[1] == "f:" + want, "up:finalise-outcome-differs-from-multipart-rules", case,
+                 f"finalise of parts {plist} after writes {writes} (minimal part size {min_size}): {res[1]}, the "
+                 f"multipart API answers {want}", trivial=(want != "ok"))
+        if want == "ok" and res[1] == "f:ok":
+            exp = "".join(last[p] for p in plist).encode()
+            R.oracle(out["object"] == exp, "up:object-not-concatenation-of-listed-parts", case,
+                     f"object {out['object']!r}, expected {exp!r}")
+            R.oracle(out["fin_result"] == {"Bucket": "bucket", "Key": "some/key.tif", "ETag": "final"},
+                     "up:finalise-result", case, f"{out['fin_result']}", trivial=True)
+    # exactly one upload, everything under it - also when the very first call is the finalise, or a call failed
+    R.oracle(out["ncreate"] == (0 if (not writes and not plist) else 1), "up:not-exactly-one-upload-initiated", case,
+             f"create_multipart_upload called {out['ncreate']} times: {out['text']}")
+    R.oracle(all(u == "id1" for u in out["used_ids"]), "up:call-under-other-upload-id", case, f"{out['text']}")
+    bad = S.bad_call_args([(n, a) for n, a in out["args"]])
+    ups = [a for n, a in out["args"] if n == "upload"]
+    seq = list(writes) + (list(writes2) if len(res) > 2 else [])
+    for a, (p, d) in zip(ups, seq):
+        if a["PartNumber"] != p or a["Body"] != d.encode():
+            bad.append(f"upload_part({a['PartNumber']}, {a['Body']!r}) for writer({p}, {d!r})")
+    if len(ups) != len(seq) and res[-1].endswith("ok"):
+        bad.append(f"{len(ups)} upload_part calls for {len(seq)} writes")
+    for a in (a for n, a in out["args"] if n == "complete"):
+        if a["Parts"] != [{"PartNumber": p, "ETag": f"etag{p}"} for p in plist]:
+            bad.append(f"complete: parts {a['Parts']} for {plist}")
+    for r_, (p, d) in zip(out["results"], seq):
+        if r_ != {"PartNumber": p, "ETag": f"etag{p}"}:
+            bad.append(f"writer({p}, ...) returned {r_}")
+    R.oracle(not bad, "up:storage-call-with-wrong-arguments", case, f"{bad}")
+
+
+def up_cases(R: Run):
+    rng = R.rng
+    kinds = ["bytes", "bytearray", "memoryview"]
+    k = 0
+
+    def data(n):
+        return "".join(rng.choice(LETTERS) for _ in range(n))
+
+    for n in range(1, 4):
+        nums = [1, 2, 3][:n]
+        for sv in itertools.product([0, 1, 2] if (R.quick and n == 3) else [0, 1, 2, 3], repeat=n):
+            for order in itertools.permutations(nums):
+                writes = [(p, data(sv[p - 1])) for p in order]
+                variants = [list(nums), list(nums)[::-1], list(nums)[:-1], list(nums)[1:], list(nums) + [7], []]
+                if n == 3:
+                    variants += [[1, 3], [2, 2, 3]]
+                for plist in variants:
+                    k += 1
+                    if R.quick and n == 3 and k % 2:
+                        continue
+                    ms = (0, 2)[k % 2] if n < 3 else (0, 2, 1)[k % 3]
+                    w2 = [] if k % 5 else [(rng.choice([1, 4]), data(2))]
+                    tag = "sorted" if plist == nums else "reversed" if plist == nums[::-1] and n > 1 else \
+                        "empty" if not plist else "unknown" if 7 in plist else "dup" if len(set(plist)) < len(plist) \
+                        else "subset"
+                    up_case(R, ms, writes, plist, w2, kinds[k % 3], tag + ("|write-after" if w2 else ""))
+    # overwrites (a part uploaded twice: the later body counts), arbitrary part numbers, random order
+    for _ in range(R.pick(200, 2500)):
+        n = rng.randint(1, 5)
+        nums = sorted(rng.sample([1, 2, 3, 5, 8, 13, 100, 9999, 10000], n))
+        writes = [(p, data(rng.choice([0, 1, 2, 3, 6]))) for p in nums]
+        rng.shuffle(writes)
+        if rng.random() < 0.4:
+            writes.insert(rng.randint(0, len(writes)), (rng.choice(nums), data(rng.choice([0, 2, 4]))))
+        plist = list(nums)
+        kind = rng.choice(["sorted", "sorted", "sorted", "swap", "subset", "unknown"])
+        if kind == "swap" and n > 1:
+            i = rng.randrange(n - 1)
+            plist[i], plist[i + 1] = plist[i + 1], plist[i]
+        elif kind == "subset":
+            plist = sorted(rng.sample(nums, rng.randint(1, n)))
+        elif kind == "unknown":
+            plist = sorted(plist + [7])
+        up_case(R, rng.choice([0, 1, 2, 3]), writes, plist, [] if rng.random() < 0.7 else [(rng.choice(nums), data(1))],
+                rng.choice(kinds), "random|" + kind + ("|overwrite" if len(writes) > n else ""))
+
+
+# ------------------------------------------------------------------ glue of the public entry points
+def glue_cases(R: Run):
+    from . import c18_sched as S
+
+    for explicit in (False, True):
+        for ambient in (False, True):
+            out: Dict[str, Any] = {}
+
+            def real():
+                out.update(S.run_writer_prep(explicit, ambient))
+                return out["text"]
+
+            R.corr(f"c18 writerprep {'T' if explicit else 'F'} {'T' if ambient else 'F'}", real,
+                   sig=f"writer-prep|explicit={explicit}|ambient={ambient}")
+            if out:
+                case = {"explicit_client": explicit, "ambient_client": ambient}
+                want = "explicit" if explicit else "ambient" if ambient else "N"
+                R.oracle(out["text"] == want and out["kw_is_same"] and out["nsets"] == (0 if want == "N" else 1)
+                         and all(v is None for _, v in out["log"]), "glue:writer-prepared-with-wrong-client", case,
+                         f"mpu.writer(kw{', client=c' if explicit else ''}) with{'' if ambient else 'out'} an ambient dask "
+                         f"client: prepared with {out['text']} (expected {want}), Variable.set calls {out['log']}")
+    extras = [{}, {"mk_header": (lambda *_: b"h"), "mk_footer": (lambda *_: b"f"), "user_kw": {"a": 1}, "writes_per_chunk": 3},
+              {"ContentType": "image/tiff", "ACL": "private"}, {"writes_per_chunk": 2, "ContentType": "x/y"}]
+    for spill in (0, 1, 4096, 5 * 2 ** 20, 20 * 2 ** 20, R.rng.randint(2, 1 << 40)):
+        for ei, extra in enumerate(extras):
+            for with_client in (False, True):
+                out = {}
+
+                def real():
+                    out.update(S.run_upload_glue(spill, extra, with_client))
+                    return out["text"]
+
+                probe = guarded(real)
+                if out.get("unavailable"):
+                    R.notes.append("upload glue stream skipped: " + out["unavailable"])
+                    return
+                R.corr(f"c18 uploadwriter {spill}", lambda: probe, sig=f"upload-glue|spill={'0' if not spill else 'pos'}|client={with_client}")
+                if not out:
+                    continue
+                case = {"spill_sz": spill, "extra": sorted(extra), "client": with_client}
+                named = {k: extra[k] for k in ("mk_header", "mk_footer", "user_kw", "writes_per_chunk") if k in extra}
+                want_kw = {"mk_header": None, "mk_footer": None, "user_kw": None, "writes_per_chunk": 1,
+                           "spill_sz": spill, "dask_name_prefix": "s3finalise", **named}
+                s3kw = {k: v for k, v in extra.items() if k not in named}
+                ok = out["out"] == "the-delayed" and out["chunks_same"] and out["kw"] == want_kw
+                if spill:
+                    ok = ok and out["writer_mpu_same"] and out["writer_kw"] == s3kw and \
+                        out["prepared"] == (1 if with_client else 0)
+                else:
+                    ok = ok and out["text"] == "N" and out["prepared"] == 0
+                R.oracle(ok, "glue:upload-hands-wrong-arguments-to-mpu-write", case,
+                         f"upload(chunks, spill_sz={spill}, {sorted(extra)}): writer {out['text']}, writer kw "
+                         f"{out['writer_kw']}, mpu_write kw {out['kw']}, prepared {out['prepared']}")
+
+
+def upload_e2e(R: Run):
+    """`MultiPartUpload.upload(...)` end to end on real dask bags, in-process, against the service's real limits
+    (5 MiB): what `mpu_upload_to_s3` (Props/C18C06.lean) says about the composition, observed"""
+    import dask
+    import dask.bag
+
+    from . import c18_sched as S
+
+    rng = R.rng
+    MB = 1 << 20
+    cfgs = [
+        # (chunk sizes per partition, spill, writes_per_chunk, header?, footer?, scheduler)
+        ([[6 * MB], [5 * MB + 3], [7]], 5 * MB, 1, True, False, "synchronous"),
+        ([[3 * MB, 3 * MB], [1], [6 * MB], [2 * MB]], 6 * MB, 2, False, True, "threads"),
+        ([[100], [200], [300]], 20 * MB, 1, True, True, "threads"),
+        ([[5 * MB + 1, 5 * MB + 2, 11 * MB]], 1, 3, False, False, "synchronous"),
+    ]
+    if not R.quick:
+        cfgs += [([[rng.randint(1, 7 * MB) for _ in range(rng.randint(1, 3))] for _ in range(rng.randint(1, 5))],
+                  rng.choice([1, 5 * MB, 8 * MB]), rng.randint(1, 3), rng.random() < 0.5, rng.random() < 0.5,
+                  rng.choice(["synchronous", "threads"])) for _ in range(4)]
+    cfgs.append(([[4 * MB], [3 * MB]], 0, 1, True, False, "synchronous"))  # spill_sz=0: no writer, nothing uploaded
+    for parts, spill, wpc, hdr, ftr, sched in cfgs:
+        case = {"partitions": parts, "spill_sz": spill, "writes_per_chunk": wpc, "header": hdr, "footer": ftr,
+                "scheduler": sched}
+        cid = 0
+        chunks = []
+        for part in parts:
+            row = []
+            for n in part:
+                row.append((bytes([97 + cid % 26]) * n, cid))
+                cid += 1
+            chunks.append(row)
+        stream = b"".join(d for row in chunks for d, _ in row)
+        try:
+            with S._Patched() as px:  # pylint: disable=protected-access
+                px.s3.min_size = 5 * MB
+                mpu = S.instr_mpu_class()("bucket", "some/key.tif")
+                bag = dask.bag.from_delayed([dask.delayed(row) for row in chunks])
+                fut = mpu.upload(bag, mk_header=(lambda obs, **kw: b"H" * 11) if hdr else None,
+                                 mk_footer=(lambda obs, **kw: b"F" * 5) if ftr else None,
+                                 writes_per_chunk=wpc, spill_sz=spill, ContentType="image/tiff")
+                rr = fut.compute(scheduler=sched)
+                s3 = px.s3
+                want = (b"H" * 11 if hdr else b"") + stream + (b"F" * 5 if ftr else b"")
+                if spill == 0:
+                    ok = not s3.args and bytes(getattr(rr, "data", b"")) == want
+                    R.oracle(ok, "e2e:upload-without-spill", case,
+                             f"storage calls {[n for n, _ in s3.args]}, result {type(rr).__name__}")
+                    continue
+                nums = [a["PartNumber"] for n, a in s3.args if n == "upload"]
+                ok = s3.ncreate == 1 and set(s3.used_ids) == {"id1"} and s3.objects.get("some/key.tif") == want and \
+                    len(set(nums)) == len(nums) and all(1 <= p <= 10000 for p in nums) and \
+                    rr == {"Bucket": "bucket", "Key": "some/key.tif", "ETag": "final"}
+                bad = [(n, a.get("Bucket"), a.get("Key")) for n, a in s3.args if (a.get("Bucket"), a.get("Key")) != ("bucket", "some/key.tif")]
+                kw = [a["kw"] for n, a in s3.args if n == "create"]
+                R.oracle(ok and not bad and kw == [{"ContentType": "image/tiff"}], "e2e:upload-does-not-leave-one-object",
+                         case, f"creates {s3.ncreate}, ids used {sorted(set(s3.used_ids))}, part numbers {nums}, object "
+                         f"{len(s3.objects.get('some/key.tif', b''))} bytes (expected {len(want)}), equal "
+                         f"{s3.objects.get('some/key.tif') == want}, result {rr}, create kw {kw}, wrong addresses {bad}")
+        except Exception as e:  # pylint: disable=broad-except
+            R.oracle(False, "e2e:upload-raises", case, f"{type(e).__name__}: {e}")
 
 
 # ------------------------------------------------------------------ cross-process stage
@@ -453,6 +951,13 @@ def xproc_names(R: Run, h) -> Optional[List[Dict[str, str]]]:
             R.oracle(ok, "dist:shared-name-differs-across-processes",
                      {"bucket": ob["bucket"], "key": ob["key"], "writer": flavour, "hashseeds": h["seeds"]},
                      f"client process: {want}; worker processes (PYTHONHASHSEED {h['seeds']}): {got}")
+    # ... while DIFFERENT objects (another key, another bucket) never share a Variable or a Lock
+    for f in ("MPUpload", "MPULock", "var", "lock"):
+        names = [(ob["bucket"], ob["key"], ob["parent"]["unprepared"][f]) for ob in h["objs"]]
+        clash = [(a[:2], b[:2], a[2]) for i, a in enumerate(names) for b in names[i + 1:]
+                 if a[2] == b[2] and a[2] is not None]  # None: the private helper that would tell is not there
+        R.oracle(not clash, "dist:different-objects-share-a-name", {"field": f, "objects": [n[:2] for n in names]},
+                 f"{f}: {clash}")
     # names asked for by the first write of a not prepared writer in each child (first object)
     return [{"MPUpload": r["objects"][0]["unprepared"]["var"], "MPULock": r["objects"][0]["unprepared"]["lock"]}
             for r in res]
@@ -530,16 +1035,40 @@ class _short_writes:
         fopen = _fault_open(self.limit)
         FaultPath._fopen = staticmethod(fopen)
         self._mod = _mpu_fs
-        self._old_path = _mpu_fs.Path
+        # the module's own names for opening files (today: the builtin `open` and `pathlib.Path`); where a name is
+        # not used by the module the fault model simply does not bite there
+        self._old_path = getattr(_mpu_fs, "Path", None)
+        self._had_open = "open" in vars(_mpu_fs)
+        self._old_open = vars(_mpu_fs).get("open")
         _mpu_fs.open = fopen
-        _mpu_fs.Path = FaultPath
+        if self._old_path is not None and isinstance(self._old_path, type) and issubclass(type(Path()), self._old_path):
+            _mpu_fs.Path = FaultPath
         return self
 
     def __exit__(self, *exc):
         if self.limit is not None:
-            del self._mod.open
-            self._mod.Path = self._old_path
+            if self._had_open:
+                self._mod.open = self._old_open
+            else:
+                del self._mod.open
+            if self._old_path is not None:
+                self._mod.Path = self._old_path
         return False
+
+
+def parts_left(pdir: Path, recs) -> List[Any]:
+    """(part number, content) of the files left in a parts directory; a file is attributed to a part through the
+    `Path` the sink returned for it (`recs`: part -> record), whatever the files are called"""
+    by_path = {str(Path(r["Path"])): p for p, r in recs.items() if r}
+    left = []
+    for f in sorted(pdir.iterdir()):
+        p = by_path.get(str(f))
+        if p is None:
+            digits = "".join(c for c in f.stem if c.isdigit())
+            p = int(digits) if digits else -1
+        left.append((p, f.read_bytes().decode()))
+    left.sort()
+    return left
 
 
 def sink_case(R: Run, root: Path, writes, plist, keep: bool, base_kind: str, tag: str,
@@ -581,7 +1110,7 @@ def sink_case(R: Run, root: Path, writes, plist, keep: bool, base_kind: str, tag
         if pdir is None:
             pdir = (dst.parent if base is None else base) / f".{dst.name}.parts"
         state["pdir"] = pdir
-        parts = [recs.get(p, {"PartNumber": p, "Path": str(pdir / f"p{p:04d}.bin"), "Size": 0}) for p in plist]
+        parts = [recs.get(p, {"PartNumber": p, "Path": str(pdir / f"never-written-{p}.bin"), "Size": 0}) for p in plist]
         err = "ok"
         if copy_how:
             sink = clone(sink, copy_how)  # the finalise task gets its own copy
@@ -597,11 +1126,7 @@ def sink_case(R: Run, root: Path, writes, plist, keep: bool, base_kind: str, tag
         except OSError:
             err = "ERR:OSError"
         content = dst.read_bytes().decode() if dst.exists() else None
-        left = []
-        if pdir.exists():
-            for f in sorted(pdir.iterdir()):
-                left.append((int(f.name[1:-4]), f.read_bytes().decode()))
-        left.sort()
+        left = parts_left(pdir, recs) if pdir.exists() else []
         state.update(err=err, content=content, left=left, dir=pdir.exists())
         return (f"{err} ; dst{'N' if content is None else '=' + content} ; "
                 f"parts={list_s([f'{p}:{d}' for p, d in left])} ; dir={'T' if pdir.exists() else 'F'}")
@@ -684,8 +1209,13 @@ def sink_cases(R: Run, root: Path):
             work = Path(tempfile.mkdtemp(dir=root))
             dst = work / "o.tif"
             base = {"none": None, "dir": work / "pb", "nested": work / "x" / "y"}[base_kind]
-            R.corr(f"c18 path {work} o.tif {opt_s(base)} {part}",
-                   lambda: MPUFileSink(dst, parts_base=base)(part, b"")["Path"], sig=f"path|{base_kind}")
+            SOFT.add(f"c18 path {work} o.tif {opt_s(base)} {part}",
+                     lambda: MPUFileSink(dst, parts_base=base)(part, b"")["Path"], "names of the temporary part files")
+            # behavioural: the record names a file that exists, inside the given parts_base when there is one
+            got = guarded(lambda: MPUFileSink(dst, parts_base=base)(part, b"")["Path"])
+            R.oracle(not got.startswith("ERR:") and Path(got).is_file() and
+                     (base is None or str(Path(got)).startswith(str(base))), "sink:part-record-names-no-file",
+                     {"part": part, "base": base_kind}, f"record path {got}", trivial=True)
             shutil.rmtree(work, ignore_errors=True)
 
 
@@ -765,7 +1295,7 @@ def multi_sink_case(R: Run, root: Path, a: str, b: str, base_kind, order, keep: 
             content = dsts[i].read_bytes().decode() if dsts[i].is_file() else None
             left = []
             if pdir.is_dir():
-                left = sorted((int(f.name[1:-4]), f.read_bytes().decode()) for f in pdir.iterdir())
+                left = parts_left(pdir, {k + 1: r for k, r in enumerate(recs[i][:2])})
             res[i].update(err=last[i], content=content, left=left, dir=pdir.is_dir())
             outs.append(f"dst{'N' if content is None else '=' + content} ; "
                         f"parts={list_s([f'{p}:{d}' for p, d in left])} ; dir={'T' if pdir.is_dir() else 'F'}")
@@ -819,6 +1349,142 @@ def multi_sink_cases(R: Run, root: Path):
         multi_sink_case(R, root, "d/x.tif", "e/x.tif", "common", order, keep=(n % 5 == 0), datas=datas, collide=True)
 
 
+# ------------------------------------------------------------------ sinks over time: arbitrary operation sequences
+def sink_seq_case(R: Run, root: Path, specs, ops, forms, tag: str, rounds_oracle: bool = False):
+    """1..3 sink OBJECTS (two of them may name the same destination: a sink re-created for a second export) and an
+    arbitrary sequence of their operations - (i, "w", part, data) / (i, "f", keep, [parts]) - compared with the
+    file-system model `FS.run` (driver op `msink`), destination and parts directories inspected at the end.
+    specs[i] = (dir, name, parts_base name or None); forms[i] = how the arguments are spelled:
+    (dst as "path" | "str" | "str/", parts_base as "path" | "str", keep_parts "kw" | "pos")."""
+    from odc.geo.cog._mpu_fs import MPUFileSink
+
+    work = Path(tempfile.mkdtemp(dir=root))
+    for d in {sp[0] for sp in specs}:
+        (work / d).mkdir()
+    dsts = [work / d / n for d, n, _ in specs]
+    bases = [None if b is None else work / b for _, _, b in specs]
+    pdirs = [(dsts[i].parent if bases[i] is None else bases[i]) / f".{dsts[i].name}.parts" for i in range(len(specs))]
+    cfgs = [f"{d}|{n}|{b or 'N'}" for d, n, b in specs]
+    mops = [f"{i}:w:{o[0]}:{o[1]}" if kind == "w" else f"{i}:f:{'T' if o[0] else 'F'}:{'.'.join(map(str, o[1]))}"
+            for i, kind, *o in ops]
+    line = f"c18 msink {list_s(cfgs)} {list_s(mops)}"
+    seen: Dict[str, Any] = {}
+
+    def spell(pth, form):
+        return pth if form == "path" else str(pth) + ("/" if form == "str/" else "")
+
+    def real():
+        sinks = [MPUFileSink(spell(dsts[i], forms[i][0]),
+                             parts_base=None if bases[i] is None else spell(bases[i], forms[i][1]))
+                 for i in range(len(specs))]
+        recs: List[Dict[int, Any]] = [{} for _ in specs]
+        allrecs: List[Dict[int, Any]] = [{} for _ in specs]
+        errs, after = [], []
+        for i, kind, *o in ops:
+            e = "ok"
+            try:
+                if kind == "w":
+                    r = sinks[i](o[0], o[1].encode())
+                    assert r["PartNumber"] == o[0] and r["Size"] == len(o[1]) and Path(r["Path"]).is_file(), r
+                    recs[i][o[0]] = r
+                    pdirs[i] = Path(r["Path"]).parent
+                    # the record a part was written with stays valid for every sink object of the same parts directory
+                    for j in range(len(specs)):
+                        if specs[j] == specs[i] or (specs[j][1] == specs[i][1] and (specs[j][2] or specs[j][0]) == (specs[i][2] or specs[i][0])):
+                            allrecs[j][o[0]] = r
+                else:
+                    parts = [allrecs[i].get(p, {"PartNumber": p, "Path": str(pdirs[i] / f"never-written-{p}.bin"), "Size": 0})
+                             for p in o[1]]
+                    out = sinks[i].finalise(parts, o[0]) if forms[i][2] == "pos" else \
+                        sinks[i].finalise(parts, keep_parts=o[0])
+                    assert Path(out) == dsts[i], out
+            except AssertionError:
+                e = "ERR:AssertionError"
+            except FileNotFoundError:
+                e = "ERR:FileNotFoundError"
+            except ValueError:
+                e = "ERR:ValueError"
+            except OSError:
+                e = "ERR:OSError"
+            errs.append(e)
+            after.append((e, dsts[i].read_bytes().decode() if dsts[i].is_file() else None, pdirs[i].is_dir()))
+        outs = []
+        for i in range(len(specs)):
+            content = dsts[i].read_bytes().decode() if dsts[i].is_file() else None
+            left = parts_left(pdirs[i], allrecs[i]) if pdirs[i].is_dir() else []
+            outs.append(f"dst{'N' if content is None else '=' + content} ; "
+                        f"parts={list_s([f'{p}:{d}' for p, d in left])} ; dir={'T' if pdirs[i].is_dir() else 'F'}")
+        seen["after"] = after
+        return f"{','.join(errs)} | {' | '.join(outs)}"
+
+    R.corr(line, real, sig=f"sink-seq|{tag}|{len(specs)}sinks|" + "+".join(sorted({'/'.join(f) for f in forms})))
+    if rounds_oracle and seen:
+        # rounds on ONE sink: every round writes distinct parts and finalises exactly those (keep_parts=False):
+        # after each finalise the destination is this round's data, in the order listed, and the parts are gone
+        cur: Dict[int, str] = {}
+        for (i, kind, *o), (e, content, has_dir) in zip(ops, seen["after"]):
+            if kind == "w":
+                cur[o[0]] = o[1]
+            else:
+                want = "".join(cur[p] for p in o[1])
+                R.oracle(e == "ok" and content == want and not has_dir, "sink:later-round-does-not-replace-destination",
+                         {"specs": specs, "ops": ops, "forms": forms},
+                         f"round finalised parts {o[1]} of {cur}: {e}, destination {content!r} (expected {want!r}), "
+                         f"parts directory left: {has_dir}")
+                cur = {}
+    shutil.rmtree(work, ignore_errors=True)
+
+
+def sink_seq_cases(R: Run, root: Path):
+    rng = R.rng
+    dforms, bforms, kforms = ["path", "str", "str/"], ["path", "str"], ["kw", "pos"]
+
+    def data():
+        return "".join(rng.choice(LETTERS) for _ in range(rng.choice([0, 1, 1, 2, 3])))
+
+    def form():
+        return (rng.choice(dforms), rng.choice(bforms), rng.choice(kforms))
+
+    # rounds on one sink (the same product exported again), also through a re-created sink object
+    k = 0
+    for base in (None, "pb"):
+        for nrounds in (2, 3):
+            for order in ("asc", "desc"):
+                for recreate in (False, True):
+                    k += 1
+                    specs = [("d", "x.tif", base)] * (2 if recreate else 1)
+                    ops = []
+                    for r in range(nrounds):
+                        i = r % len(specs)
+                        nums = rng.sample([1, 2, 3, 4], rng.randint(1, 3))
+                        for p in nums:
+                            ops.append((i, "w", p, data()))
+                        lst = sorted(nums, reverse=(order == "desc"))
+                        ops.append((i, "f", False, lst))
+                    fm = [(dforms[k % 3], bforms[k % 2], kforms[k % 2])] * len(specs)
+                    sink_seq_case(R, root, specs, ops, fm, "rounds" + ("|recreated" if recreate else ""), rounds_oracle=True)
+    # a destination that exists before the first round (an earlier export by other means)
+    pool = [("d", "x.tif", None), ("d", "x.tif", "pb"), ("e", "x.tif", "pb"), ("d", "y.bin", None), ("e", "x.tif", None),
+            ("d", "x.tif.ovr", "pb")]
+    for _ in range(R.pick(250, 1500)):
+        ns = rng.choice([1, 1, 2, 2, 3])
+        specs = [rng.choice(pool) for _ in range(ns)]
+        ops = []
+        for _ in range(rng.randint(3, 10)):
+            i = rng.randrange(ns)
+            if rng.random() < 0.62:
+                ops.append((i, "w", rng.choice([1, 2, 3]), data()))
+            else:
+                lst = rng.sample([1, 2, 3], rng.randint(1, 3))
+                if rng.random() < 0.1:
+                    lst.append(rng.choice(lst))
+                if rng.random() < 0.05:
+                    lst = []
+                ops.append((i, "f", rng.random() < 0.3, lst))
+        shared = len({(b or d, n) for d, n, b in specs}) < ns
+        sink_seq_case(R, root, specs, ops, [form() for _ in specs], "random" + ("|shared-parts-dir" if shared else ""))
+
+
 # ------------------------------------------------------------------ limits
 KW = ["min_write_sz", "max_write_sz", "min_part", "max_part"]
 
@@ -837,7 +1503,7 @@ def limit_cases(R: Run, root: Path):
 
     # accessor list by introspection of the protocol: an added accessor cannot escape the model
     accs = sorted(n for n, v in vars(_mpu.PartsWriter).items() if isinstance(v, property))
-    R.corr("c18 accessors", lambda: list_s(accs), sig="accessors")
+    SOFT.add("c18 accessors", lambda: list_s(accs), "accessor list of the PartsWriter protocol")
     writers = {"MPUFileSink": _mpu_fs.MPUFileSink, "MultiPartUpload": _s3.MultiPartUpload,
                "DelayedS3Writer": _s3.DelayedS3Writer}
     for nm, cls in writers.items():
@@ -865,8 +1531,8 @@ def limit_cases(R: Run, root: Path):
                 m.uploadId = uid
                 w = _s3.DelayedS3Writer(m, {})
                 if k:
-                    R.corr(f"c18 tokens {b} {k} {uid or '-'}",
-                           lambda: f"{list_s(m.__dask_tokenize__())} {list_s(w.__dask_tokenize__())}", sig="tokens")
+                    SOFT.add(f"c18 tokens {b} {k} {uid or '-'}",
+                             lambda: f"{list_s(m.__dask_tokenize__())} {list_s(w.__dask_tokenize__())}", "text of dask tokens")
                 R.oracle(w.__dask_tokenize__() == _s3.DelayedS3Writer(_s3.MultiPartUpload(b, k), {}).__dask_tokenize__(),
                          "address:writer-token-depends-on-upload-id", {"bucket": b, "key": k, "uploadId": uid},
                          f"{w.__dask_tokenize__()}")
@@ -874,8 +1540,8 @@ def limit_cases(R: Run, root: Path):
         R.corr(f"c18 parseurl {u}", lambda: " ".join(_s3.s3_parse_url(u)), sig="parse-url|other")
     for dr, nm, base in (("/d", "x.tif", None), ("/d/e", "a.b.c", "/pb"), ("/d", ".hidden", None), ("/d", "x", "/d")):
         sk = _mpu_fs.MPUFileSink(f"{dr}/{nm}", parts_base=base)
-        R.corr(f"c18 sinktoken {dr}|{nm}|{base or 'N'}", lambda: list_s(str(x) for x in sk.__dask_tokenize__()),
-               sig="sink-token")
+        SOFT.add(f"c18 sinktoken {dr}|{nm}|{base or 'N'}", lambda: list_s(str(x) for x in sk.__dask_tokenize__()),
+                 "text of dask tokens")
     # two-sided: the limits of the S3 multipart API (5 MiB .. 5 GiB per part, part numbers 1 .. 10000) and
     # the documented defaults of the file sink, independent of the Lean model
     s3_doc = {"min_write_sz": 5 * 1024 * 1024, "max_write_sz": 5 * 1024 ** 3, "min_part": 1, "max_part": 10000}
@@ -944,15 +1610,22 @@ def limit_cases(R: Run, root: Path):
 # ------------------------------------------------------------------ entry points
 def run(R: Run):
     root = Path(tempfile.mkdtemp(prefix="c18-"))
+    SOFT.items.clear()
+    SEQK["filtered"] = None
     try:
         xh = xproc_start(R)  # child interpreters work while the sink / limits stages run
         limit_cases(R, root)
         sink_cases(R, root)
         multi_sink_cases(R, root)
+        sink_seq_cases(R, root)
         seq_cases(R)
+        up_cases(R)
+        glue_cases(R)
+        upload_e2e(R)
         xnames = xproc_names(R, xh)
         xproc_real(R, xh)
         schedules(R, xnames)
+        SOFT.report(R)
     finally:
         shutil.rmtree(root, ignore_errors=True)
     R.exhaustive = False
@@ -974,7 +1647,7 @@ def search(R: Run, mismatches) -> Optional[Dict[str, Any]]:
                                     ("dist", ["w1", "w2", "w3"], [0, 1, 1]), ("dist", ["w1", "w2", "w3"], [0, 0, 1])):
         seeds = [R.rng.randrange(1 << 60) for _ in range(4000)]
         for o in S.random_runs(kinds, workers, seeds, procs=procs):
-            check_run(probe, variant, kinds, workers, False, o, "search")
+            check_run(probe, variant, kinds, workers, False, o, "search", side=[])
             if probe.oracle_failures:
                 return probe.oracle_failures[0]
     return None
@@ -986,7 +1659,7 @@ def replay(R: Run, rec) -> int:
     print("replay key:", key)
     print("replay case:", case)
     if key in ("dist:shared-name-differs-across-processes", "dist:real-cluster-protocol-fails",
-               "harness:fake-distributed-signature-differs"):
+               "harness:fake-distributed-signature-differs", "dist:different-objects-share-a-name"):
         probe = Run(R.prop, R.tier, R.seed)
         xh = xproc_start(probe)
         xproc_names(probe, xh)
@@ -1017,9 +1690,41 @@ def replay(R: Run, rec) -> int:
         for f in probe.oracle_failures:
             print("FAILS:", f["key"], "-", f["what"])
         return 1 if probe.oracle_failures else 0
+    if key.startswith("up:"):
+        probe = Run(R.prop, R.tier, R.seed)
+        up_case(probe, case["min_size"], [tuple(w) for w in case["writes"]], case["parts"],
+                [tuple(w) for w in case["writes2"]], case["data"], "replay")
+        print("real :", probe.real[0])
+        try:
+            R.proof_stage()
+            print("model:", run_driver("C18", [probe.lines[0]])[0])
+        except Exception as e:  # pylint: disable=broad-except
+            print("model: unavailable:", e)
+        for f in probe.oracle_failures:
+            print("FAILS:", f["key"], "-", f["what"])
+        return 1 if probe.oracle_failures else 0
+    if key.startswith("glue:") or key.startswith("e2e:"):
+        probe = Run(R.prop, R.tier, R.seed)
+        (glue_cases if key.startswith("glue:") else upload_e2e)(probe)
+        hits = [f for f in probe.oracle_failures if f["key"] == key]
+        for f in hits[:3]:
+            print("FAILS:", f["key"], "-", f["case"], "-", f["what"][:1200])
+        return 1 if hits else 0
+    if key == "sink:later-round-does-not-replace-destination":
+        root = Path(tempfile.mkdtemp(prefix="c18-"))
+        try:
+            probe = Run(R.prop, R.tier, R.seed)
+            sink_seq_case(probe, root, [tuple(x) for x in case["specs"]], [tuple(o) for o in case["ops"]],
+                          [tuple(x) for x in case["forms"]], "replay", rounds_oracle=True)
+            print("real :", probe.real[0])
+            for f in probe.oracle_failures:
+                print("FAILS:", f["key"], "-", f["what"])
+            return 1 if probe.oracle_failures else 0
+        finally:
+            shutil.rmtree(root, ignore_errors=True)
     if key.startswith("seq:"):
         probe = Run(R.prop, R.tier, R.seed)
-        seq_case(probe, case["ops"])
+        seq_case(probe, case["ops"], resumed=bool(case.get("resumed")), k25=(key == K25_KEY))
         print("real :", probe.real[0])
         try:
             R.proof_stage()
